@@ -20,7 +20,7 @@
 //   gate;   item bodies block on a gate opened only after every client thread has
 //           returned from all of its submissions (async must never wait for an item)
 //   cold;   no warm-up: the first push to each queue and the pool start-up are explored
-//   hold;   bodies of synchronously executed items (s, B, w of the one thread that issues them) stay in flight until every
+//   hold;   bodies of the synchronously executed items (s, B, w) of THREAD 0 stay in flight until every
 //           other client thread has returned from all its submissions ("reader inside, barrier arriving" without a preemption)
 //   slow;   item bodies block for 1 virtual ms between START and END (a block is a free context
 //           switch, so the maximal overlap the library allows shows up without any preemption)
